@@ -345,6 +345,7 @@ PROPS['C08'] = {
     'obligations': [],
 }
 K('C08', 'K1.appointment_receipt_layout', 'teos-common', 'verif_harness::' + 'c08_k1_appointment_receipt_layout', 'AppointmentReceipt::to_vec = user_signature || start_block(BE): determines both fields')
+K('C08', 'K1.registration_receipt_layout', 'teos-common', 'verif_harness::' + 'c08_k1_registration_receipt_layout', 'RegistrationReceipt::to_vec = user id(33) || available_slots || subscription_start || subscription_expiry (BE): every returned field is signed at its own position')
 K('C08', 'K1.appointment_layout', 'teos-common', 'verif_harness::' + 'c08_k1_appointment_layout', 'Appointment::to_vec = locator(16) || blob || to_self_delay(BE)')
 K('C08', 'K2.registration_receipt', 'teos', _g + 'c09_k5_register_new', 'registration receipt fields == UserInfo in memory == database row')
 K('C08', 'K2.renewal_receipt', 'teos', _g + 'c09_k5_renew', 'renewal receipt fields == UserInfo in memory == database row')
@@ -440,6 +441,8 @@ M('C11', 'M3.purge_vs_store', 'purge_vs_store', 'no interleaving orders the purg
 K('C11', 'K3.in_mempool_retry_waits', 'teos', _ca + 'c12_k1_in_mempool_through_outage', 'a node query interrupted by a transport error lowers the reachable flag before it is re-issued, so the retry parks on the condvar instead of recursing without bound (stack overflow aborts the process with carrier / index locks held)')
 K('C11', 'K3.send_retry_waits', 'teos', _ca + 'c12_k1_send_through_outage', 'a submission interrupted by a transport error lowers the reachable flag before it is re-issued (bounded retry, no unbounded recursion)')
 M('C05', 'M6.mirror_reload', 'mirror_reload', 'start-up re-establishes the mirror invariant M5 assumes: DBM::load_towers fills the in-memory pending / invalid set of each tower from the table the corresponding recorder inserts into (status constant -> table constant -> with_appointments argument -> TowerSummary field, read from the MIR)')
+M('C13', 'M6.retrier_end_state', 'retrier_end_state', 'after the back-off strategy gave up, every feasible path of the task spawned by Retrier::start (symbolic RetryError variant and permanent flag, tied to is_permanent\'s own MIR) leaves the retrier Failed or Idle, never Running: it can idle, be restarted automatically or retried manually, and the reported status is truthful')
+M('C02', 'M1.per_appointment_decrypt', 'per_appointment_decrypt', 'Watcher::handle_breaches: every appointment under a breached locator is decrypted from its own blob in its own loop iteration before anything is handed to the Responder (no penalty is broadcast for an appointment whose own blob does not yield it)')
 M('C08', 'M1.single_height_read', 'single_height_read', 'Watcher::add_appointment reads the tower height once per accepted request: the start block in the receipt and the one stored with the appointment are the same number whatever block events interleave')
 M('C06', 'M2.uuid_derivation', 'uuid_derivation', 'UUID::new hashes locator || full serialised user key (PublicKey::serialize): distinct users never share a uuid for the same locator')
 K('C11', 'K1.handle_reorged_panic_free', 'teos', _r + 'c04_p3_handle_reorged', 'handle_reorged_txs does not panic for any node reply to the dispute / penalty re-submission (incl. already-in-chain)')
